@@ -178,7 +178,9 @@ Ret0(m, t, e, late) ==
   ELSE CASE c.api = "WC" ->
               IF c.done THEN (IF IsNil(e) THEN m2 ELSE Fail(m))
               ELSE \* wrote nothing: a timeout (finite deadline) or overtaken by a close / failure
-                   IF ~IsNil(e) /\ ~c.wrote /\ (e.cls = "timeout" => c.dl # "zero") /\ (e.cls # "timeout" => m.err # "none")
+                   \* (a timeout is either the call's own - only with a finite deadline - or the latched error of a transport
+                   \*  operation that timed out under another call)
+                   IF ~IsNil(e) /\ ~c.wrote /\ (e.cls = "timeout" => (c.dl # "zero" \/ m.err = "fatal")) /\ (e.cls # "timeout" => m.err # "none")
                    THEN m2 ELSE Fail(m)
          [] c.api = "WM" ->
               IF c.done THEN (IF IsNil(e) THEN m2 ELSE Fail(m))
